@@ -200,3 +200,19 @@ Example C10_gossip_mesh_nonvacuous :
             deliver_from_origin (node_of gx_nodes ex_adj ex_lab ex_lat c) (rlink_of gx_nodes ex_adj ex_lab ex_lat c) (fun _ _ => 0)
               (S (best c gx_b gx_a)) gx_a (mkFF 32 0 Gen.mt_router_ping gx_a gx_b [] 77) = Some (gx_b, mkFF 31 0 Gen.mt_router_ping gx_a gx_b [] 77).
 Proof. exact gossip_delivers_nonvacuous. Qed.
+
+(* hop counts never exceed the number of routers (paths are loop-free lists of routers), so in
+   meshes of up to 31 routers — C09 quantifies over up to 16 — the TTL every originated frame
+   starts with (Gen.frame_default_ttl, read from frame/frame_v1.go on every run) always suffices *)
+Theorem C10_default_ttl_suffices : forall nodes adj cfg lab lat,
+  (length nodes <= 98)%nat -> (forall a, adj a a = false) -> (forall a b, adj a b = adj b a) ->
+  forall c b a f flag,
+  (length nodes <= 31)%nat ->
+  preach nodes adj cfg lab lat c -> routable b = true -> In a nodes -> a <> b ->
+  (forall r, In r nodes -> r <> b -> knows (c_tbl c r) b) ->
+  ff_src f = a -> ff_dst f = b -> ff_sb f = [] -> is_hop_ping (ff_ty f) = false ->
+  ff_ttl f = Gen.frame_default_ttl ->
+  exists f', deliver_from_origin (node_of nodes adj lab lat c) (rlink_of nodes adj lab lat c) flag (S (best c b a)) a f = Some (b, f') /\
+             ff_ty f' = ff_ty f /\ ff_src f' = ff_src f /\ ff_dst f' = ff_dst f /\ ff_rest f' = ff_rest f /\ ff_sb f' = [].
+Proof. exact default_ttl_suffices. Qed.
+Print Assumptions C10_default_ttl_suffices.
